@@ -3,6 +3,7 @@ pub mod c09;
 pub mod c14;
 pub mod c15;
 pub mod c16;
+pub mod cluster_props;
 pub mod hostile;
 pub mod mempool_props;
 pub mod noninterference;
@@ -15,5 +16,5 @@ pub mod solo_props;
 use crate::runner::PropDef;
 
 pub fn all() -> Vec<PropDef> {
-    vec![solo_props::c02_def(), solo_props::c03_def(), c04::def(), solo_props::c05_def(), solo_props::c08_def(), c09::def(), solo_props::c10_def(), mempool_props::c11_def(), mempool_props::c12_def(), c14::def(), c15::def(), c16::def(), c17::def(), c18::def(), c19::def(), c20::def()]
+    vec![solo_props::c02_def(), solo_props::c03_def(), c04::def(), solo_props::c05_def(), cluster_props::c06_def(), cluster_props::c07_def(), solo_props::c08_def(), c09::def(), solo_props::c10_def(), mempool_props::c11_def(), mempool_props::c12_def(), cluster_props::c13_def(), c14::def(), c15::def(), c16::def(), c17::def(), c18::def(), c19::def(), c20::def()]
 }
